@@ -40,7 +40,7 @@ WANT = {
     7: ["PacketHeaderPacked", "PacketHeader", "PacketHeaderConnlessPacked", "PacketHeaderConnless",
         "ChunkHeader", "ChunkHeaderVital", "ChunkHeaderPacked", "ChunkHeaderVitalPacked"],
 }
-SITE_BASE = {6: 610, 7: 710}
+SITE_BASE = {6: 610, 7: 730}
 
 # ------------------------------------------------------------------ tokens
 
